@@ -199,6 +199,23 @@ func randCoeffs(rng *hx.Rng, t int, q *big.Int) []*big.Int {
 
 func eqBig(a, b *big.Int) bool { return a.Cmp(b) == 0 }
 
+// craftFor returns the coefficients with the constant term replaced by sum_{k>=1} c_k x^k for the
+// abscissa x = i+1: the last Horner step of an evaluation at index i then adds a point to itself
+// (the same element reached along two different routes, hence in two different representations)
+func craftFor(coeffs []*big.Int, i int, q *big.Int) []*big.Int {
+	out := make([]*big.Int, len(coeffs))
+	copy(out, coeffs)
+	x := big.NewInt(int64(i + 1))
+	acc := big.NewInt(0)
+	for k := len(coeffs) - 1; k >= 1; k-- {
+		acc.Add(acc, coeffs[k])
+		acc.Mul(acc, x)
+		acc.Mod(acc, q)
+	}
+	out[0] = acc
+	return out
+}
+
 // the values of the share objects (nil entries included), to see whether a call changed its inputs
 func priSnapshot(g kyber.Group, shs []*share.PriShare) string {
 	var sb strings.Builder
@@ -436,6 +453,9 @@ func genC09(rng *hx.Rng, tier string, w *hx.Writer) error {
 			c09Recover(rng, w, grp, t, n, coeffs, ents, which)
 		case 4: // Commit then Eval == Eval then commit
 			i := rng.Intn(n + 1)
+			if rng.Chance(30) && t > 1 {
+				coeffs = craftFor(coeffs, i, q)
+			}
 			poly := share.CoefficientsToPriPoly(g, scalars(g, coeffs, q))
 			impl := hx.Catch(func() string { return hx.B(PtBytes(poly.Commit(nil).Eval(i).V)) })
 			oracle := "ok"
@@ -446,15 +466,24 @@ func genC09(rng *hx.Rng, tier string, w *hx.Writer) error {
 				Tags: []string{gtag, "commit-eval", "nt"}})
 		case 5: // PubPoly.Eval over arbitrary commitments (incl. identity)
 			i := rng.Intn(n + 1)
+			if rng.Chance(30) && t > 1 {
+				coeffs = craftFor(coeffs, i, q)
+			}
 			pp := share.NewPubPoly(g, nil, points(g, coeffs, q))
 			impl := hx.Catch(func() string { return hx.B(PtBytes(pp.Eval(i).V)) })
 			w.Put(hx.Case{Entry: "share", Op: 6, Args: hx.L(hx.Z(q), hx.Zi(grp), bigsVal(coeffs), hx.Zi(i)), Impl: impl,
 				Tags: []string{gtag, "pub-eval", "nt"}})
 		case 6: // Check
 			i := rng.Intn(n)
+			if rng.Chance(30) && t > 1 {
+				coeffs = craftFor(coeffs, i, q)
+			}
 			v := refEval(coeffs, i, q)
 			kind := "check-true"
-			switch rng.Intn(4) {
+			switch rng.Intn(5) {
+			case 4:
+				v = new(big.Int).Mod(new(big.Int).Neg(v), q)
+				kind = "check-negated"
 			case 0:
 				v = new(big.Int).Mod(new(big.Int).Add(v, big.NewInt(1)), q)
 				kind = "check-off-by-one"
